@@ -35,6 +35,7 @@ type Case struct {
 	XData      string `json:",omitempty"` // ... and payload (hex)
 	Hops, Secs int    `json:",omitempty"` // header fields the cascade does not look at
 	RespFlag   string `json:",omitempty"` // what the plugin does to the REPLY's broadcast bit: "" | "set" | "clear"
+	Peer       string `json:",omitempty"` // UDP source of the request: "" = 10.9.9.9:68 | "gi:1067" = the giaddr itself from a non-standard port | "gi:67" | "other:1067"
 	RespGI     string `json:",omitempty"` // what the plugin leaves in the REPLY's giaddr: "" (as handed) | "zero" | "other"
 	RespCI     string `json:",omitempty"` // ... and in the REPLY's ciaddr
 	Fresh      bool   `json:",omitempty"` // the plugin returns a newly built reply object instead of the one it was handed
@@ -161,7 +162,16 @@ func eval(r *ev.Run, c Case) {
 		evalListen(r, c)
 		return
 	}
-	out := srv.Run4(ifi, []handler.Handler4{shaper(&cc)}, request(c), c.Oob, &net.UDPAddr{IP: net.IPv4(10, 9, 9, 9), Port: 68})
+	peer := &net.UDPAddr{IP: net.IPv4(10, 9, 9, 9), Port: 68}
+	switch c.Peer {
+	case "gi:1067":
+		peer = &net.UDPAddr{IP: net.ParseIP(c.GI).To4(), Port: 1067}
+	case "gi:67":
+		peer = &net.UDPAddr{IP: net.ParseIP(c.GI).To4(), Port: 67}
+	case "other:1067":
+		peer = &net.UDPAddr{IP: net.IPv4(10, 9, 9, 9), Port: 1067}
+	}
+	out := srv.Run4(ifi, []handler.Handler4{shaper(&cc)}, request(c), c.Oob, peer)
 	judge(r, c, out, "", c)
 }
 
@@ -416,6 +426,25 @@ func run(r *ev.Run) {
 						for _, yi := range yis {
 							for _, bound := range []int{0, idx[0]} {
 								eval(r, Case{GI: gi, CI: ci, YI: yi, Bcast: bc, Reply: rep, Bound: bound, Oob: idx[0], HLen: 6, Fresh: true})
+							}
+						}
+					}
+				}
+			}
+		}
+	}
+	// the UDP source of the request is not part of the cascade: a relay that forwards from its
+	// giaddr address and an unusual source port is still answered on the server port
+	if len(idx) > 0 {
+		for _, gi := range []string{"0.0.0.0", "10.1.2.3", "169.254.7.7"} {
+			for _, ci := range []string{"0.0.0.0", "10.1.2.3"} {
+				for _, bc := range []bool{false, true} {
+					for _, rep := range []string{"OFFER", "ACK", "NAK"} {
+						for _, pe := range []string{"gi:1067", "gi:67", "other:1067"} {
+							for _, o82 := range []string{"", "typical"} {
+								for _, bound := range []int{0, idx[0]} {
+									eval(r, Case{GI: gi, CI: ci, YI: "10.0.0.50", Bcast: bc, Reply: rep, Bound: bound, Oob: idx[0], HLen: 6, Peer: pe, Opt82: o82})
+								}
 							}
 						}
 					}
